@@ -45,6 +45,7 @@ const NoncePrefix = ".verif-nonce"
 
 // Snap walks the tree below root with ReadDir/Lstat/ReadFile/Readlink/SameFile/ToSysStat.
 func Snap(v avfs.VFS, root string, o SnapOpts) (s *Snapshot) {
+	BeginCall() // the walk is the monitor's own: it gets its own lock-site budget, and the next call starts from it
 	s = &Snapshot{}
 	defer func() {
 		// under the sequential lock hook a lock left behind by an earlier call is a logical deadlock of the walk
